@@ -8,7 +8,7 @@ COQ_DIRS = PC.COQ_DIRS
 RULE = ("histories of kernel events (spawn/exit->zombie/reap/PID reuse/clock steps of -100000..10^9 s) and psutil calls over PIDs "
         "{0,1,2,3,7,2^31-1}, start ticks from 8 values incl. adjacent ticks, drawn from a weighted grammar with motifs 'clock step, "
         "boot_time(), second object for the same process, ==/hash/is_running' and 'process ends, queries, PID reused, "
-        "is_running/==/hash between old and new object'; objects also come from process_iter(). Class = most specific feature "
+        "is_running/==/hash between old and new object'; objects also come from process_iter() and psutil.Popen; calls also inside oneshot() blocks. Class = most specific feature "
         "reached (eq-same-pid-other-proc, isrun-reused, clock, eq-same-proc, ...). Non-trivial = some ==/hash/is_running on an "
         "object was executed; distinct = distinct canonical history.")
 TRUSTED = PC.TRUSTED
